@@ -4,26 +4,29 @@ import vlib
 
 META = dict(
     level="proof",
-    technique="Coq proof of certificate checkers over exact Q models of quadratic/cubic Beziers (chord-deviation identities, de "
-              "Casteljau split, hull lemma, point-to-segment bound) + certified acceptance (K2): the Go flatteners' outputs, with "
-              "untrusted recovered curve parameters, are checked exactly inside Coq (vm_compute); circle arcs, arc-to-cubic "
-              "conversion, x-monotone splitting and the public entry points' structure are checked exactly in Q without a "
-              "soundness theorem yet",
+    technique="Coq proof of certificate checkers over exact Q models (quadratic/cubic Beziers: chord-deviation identities, de "
+              "Casteljau split, hull lemma, point-to-segment bound; circle arcs: sagitta lemma; arc-to-cubic: degree-6 Bernstein "
+              "hull of the implicit conic; x-monotone splitting: split + sign of the derivative) + certified acceptance (K2): the Go "
+              "functions' outputs, with untrusted recovered parameters / centres, are checked exactly inside Coq (vm_compute)",
     level_text="Theorems (Coq, closed under the global context): an accepted flattening certificate of a quadratic or cubic Bezier "
                "implies end points preserved exactly, every vertex on the curve (within 2^-18 per coordinate) in curve order, and "
-               "EVERY curve point (all rational t in [0,1]) within K*tol of the polyline (K=2 quadratic, K=8 cubic); the exact chord "
-               "identities, split lemma and hull lemma; the source's quadratic step rule keeps the chord-line deviation <= tol when "
-               "the curve does not turn back against its start tangent (_partial) and is refuted in general (near-cusp quadratic: "
-               "deviation > 499 tol). Each run feeds the real flatteners' output through the verified checkers. Circle-arc "
-               "flattening (annulus + monotone turning), ReplaceArcs (Bernstein-hull bound of the implicit conic on 8 sub-cubics), "
-               "XMonotone (re-join by split + sign of the derivative coefficients) and subpath/closedness/end-point preservation of "
-               "the public functions are decided exactly in Q per case: checked, not proved.",
+               "EVERY curve point (all rational t in [0,1]) within K*tol of the polyline (K=2 quadratic, K=8 cubic; collinear "
+               "cubic pieces through a verified subdivision certificate); an accepted circle-arc certificate implies every chord "
+               "in the annulus [r-K tol, r+tol+slack] and every circle point between two consecutive vertices within max(K tol, "
+               "tol+slack) of their chord (sagitta lemma); an accepted arc-to-cubic certificate implies |conic(B t)-1| <= 4e-3 "
+               "for all t (degree-6 hull lemma); an accepted x-monotone splitting re-joins to the original curve and is monotone "
+               "in x on every piece; the exact chord identities, split and hull lemmas; the quadratic step rule is sound when the "
+               "curve does not turn back against its start tangent (_partial) and refuted in general (deviation > 499 tol). Each "
+               "run feeds the real functions' output through the verified checkers; subpath/closedness/end-point preservation of "
+               "the public Flatten/ReplaceArcs/XMonotone is decided exactly per case (K1 on structure).",
     level_note="Known finding (open): the step rules of flattenQuadraticBezier/flattenSmoothCubicBezier and the cusp handling of "
                "strokeCubicBezier bound only the offset from the start tangent; pieces inside which the tangent turns by 90 degrees "
                "or more (hairpins with tip radius below the tolerance, cusps, collinear overshoot) deviate by up to thousands of "
-               "tolerances. Such pieces are reported as KNOWN-FINDING, any other rejected piece as VIOLATION. Quantification over t "
-               "is over Q (no real numbers in the development). Trusted: Coq kernel + vm_compute, the hand-written models, the Go "
-               "harness (generators, parameter recovery is untrusted search), float64 -> dyadic exchange.",
+               "tolerances. Such pieces are reported as KNOWN-FINDING, any other rejected piece as VIOLATION. Not proved: that the "
+               "sectors of an accepted circle certificate add up to the arc (checked by quadrant counting), x-monotone arcs. "
+               "Quantification over t / circle points is over Q (no real numbers in the development). Trusted: Coq kernel + "
+               "vm_compute, the hand-written models, the Go harness (generators; parameter recovery is untrusted search), "
+               "float64 -> dyadic exchange.",
     harness=["c03"],
 )
 
@@ -46,14 +49,6 @@ FLAGS = {
 FLAGS["CCube"] = FLAGS["CQuad"]
 KNOWN_BIT = 16
 IGNORE_BITS = 32 | 256    # "checker rejected" only accompanies a reason bit; 256 = accepted by the collinear subdivision certificate
-
-# Proposal for known_findings.json (used until the lead adds it there; see design/C03.md)
-PROPOSED = [dict(
-    property="C03", key="flatten-step-rule-turning-piece", status="open", flagmask=KNOWN_BIT, cond="tangent-turns>=90deg-inside-piece",
-    what="Flatten cuts off hairpins/cusps: a returned segment spans a curve piece inside which the tangent turns by 90 degrees or more "
-         "and the curve leaves the segment by more than K*tol (K=2 quadratic, K=8 cubic)",
-    input=dict(path="M0 0Q10 0.001 0 0.002", tolerance=0.01, go="M0 0L0 0.002", spec="the curve reaches x=5: deviation 500 x tolerance"))]
-
 
 def kind_of(c):
     return c["coq"].split(" ", 1)[0]
@@ -96,9 +91,6 @@ def run(ctx):
             rows[i] = r
     known = [f for f in vlib.known_findings("C03") if f.get("status") == "open"]
     known_src = "known_findings.json"
-    if not any(f.get("key") == PROPOSED[0]["key"] for f in vlib.known_findings("C03")):
-        known = known + PROPOSED
-        known_src = "checks/c03.py PROPOSED (entry not yet in known_findings.json)"
     known_mask = 0
     for f in known:
         known_mask |= f.get("flagmask", 0)
@@ -147,7 +139,7 @@ def run(ctx):
         worst = max(known_hits, key=lambda t: t[1][4] if len(t[1]) > 4 else 0)
         fams = vlib.histogram([h[0]["fam"] for h in known_hits])
         ctx.known_finding("%s — %d cases this run (e.g. %s at tolerance %s flattens to %s; worst bound %.0f x tol on %s)" % (
-            known[-1]["what"] if known_src.startswith("checks") else [f for f in known if f.get("flagmask", 0) & KNOWN_BIT][0]["what"],
+            [f for f in known if f.get("flagmask", 0) & KNOWN_BIT][0]["what"],
             len(known_hits), c["desc"].get("curve"), c["desc"].get("tol"), ("M" + c["desc"].get("go_vertices", "").replace(" ", "L").replace(",", " "))[:80],
             math.sqrt(max(worst[1][4], 0) / 1e6), worst[0]["desc"].get("curve")))
     prop_fail.sort(key=lambda t: len(t[0]["coq"]))
@@ -166,7 +158,7 @@ def run(ctx):
         checker_cmd="make -C coq theories/Props/C03.vo (coqc 8.16.1, full .vo) ; coqc on generated cases files (vm_compute of Corr.C03.judge)",
         trusted_base=vlib.trusted_base(pr, [
             "correspondence harness harness/cmd/c03 (Go): generators, float64 -> exact dyadic exchange, parameter recovery (untrusted search, re-checked in Coq)",
-            "models written by hand: Flat/Curves.v, Flat/Cert.v (proved sound), Flat/Arc.v, Flat/XMono.v (checked per case, soundness not proved)",
+            "models written by hand: Flat/Curves.v, Flat/Cert.v, Flat/Arc.v, Flat/XMono.v (checkers proved sound in Flat/*Proofs.v); the public-structure judge and the turning-sum test of the circle checker are executable checks without a theorem",
             "hook verif_export_c03.go: thin wrappers around the unexported flatteners"]),
         evaluations=len(judged), distinct=len(distinct), distinct_nontrivial=len(nontrivial),
         rule="one evaluation = one (curve or arc or path, tolerance) run through the Go code and through the Coq judge; distinct by the full input description; non-trivial: the output has at least two pieces (flatteners) or is a multi-subpath public call / an arc conversion",
